@@ -4,9 +4,9 @@ foldline(line, limit) is executed with limit in {2,3,4,5} (the octet arithmetic 
 `limit`; the default 75 is decided by Engine S) on fully symbolic short strings, so that every
 alignment of a 1-4 octet character, a CR, a space or a tab with the fold point occurs."""
 from icalendar.parser import Contentline, Contentlines, foldline, uFOLD
-from vcheck.hcommon import pin, pinned, tier
+from vcheck.hcommon import PARAMS, pin, pinned, tier
 
-N_MAX = tier(4, 5)
+N_MAX = PARAMS.get("nmax") or 4      # characters per string; thorough shards raise it to 5 through the pinned parameter nmax
 
 # 1-octet chars incl. SP/TAB/CR, and the first/last code points of the 2-, 3- and 4-octet classes
 WIDE = ["a", " ", "\t", "\r", "\x80", "\u07ff", "\u0800", "\uffff", "\U00010000", "😀"]
